@@ -3,7 +3,7 @@ sys.path.insert(0, os.path.join(os.path.dirname(__file__), '..', 'common'))
 from vlib import H
 from st_probes import HIST_PROBES
 import hist_spec as HS
-ENT = ['dispatch_queue_create', 'dispatch_source_create', 'dispatch_source_set_event_handler_f', 'dispatch_source_set_cancel_handler_f', 'dispatch_source_set_registration_handler_f', 'dispatch_activate', 'dispatch_suspend',
+ENT = ['dispatch_source_cancel_and_wait', 'dispatch_queue_create', 'dispatch_source_create', 'dispatch_source_set_event_handler_f', 'dispatch_source_set_cancel_handler_f', 'dispatch_source_set_registration_handler_f', 'dispatch_activate', 'dispatch_suspend',
        'dispatch_resume', 'dispatch_source_merge_data', 'dispatch_source_cancel', 'dispatch_source_get_data', '_dispatch_continuation_pop', '__dispatch_tsd',
        '_dispatch_source_type_data_add', '_dispatch_source_type_data_or', '_dispatch_source_type_data_replace']
 STUBS = list(HS.H_STUBS) + ['_dispatch_dispose']
